@@ -3,6 +3,7 @@ C15 — a suite's configuration always means what its suite string says.
 `Spec.denote` (Spec/SuiteGrammar.lean) is the independent reading of the RFC 6287 naming scheme.
 -/
 import OtpVerif.Lemmas.SuiteParse
+import OtpVerif.Lemmas.SuiteComplete
 
 namespace OtpVerif.Props.C15
 open OtpVerif OtpVerif.Std OtpVerif.Model OtpVerif.Lemmas
@@ -83,6 +84,33 @@ theorem C15_instantiable : ∀ e ∈ Gen.registry, newRawSuite e.1 = .ok { e.2 w
   simp only [Bool.and_eq_true, decide_eq_true_eq] at this
   exact this.1.1
 
+/-- C15, converse direction (completeness of the parser on what a `SuiteConfig` can express): every string that the naming
+scheme reads — with a challenge format the library records (QN08 / QN10) and time steps that carry their unit — is
+accepted by `NewRawSuite`, with exactly the configuration the string says.  Together with `C15_newRawSuite` this makes the
+parser's language on representable strings *equal* to the Spec's: nothing well-formed is refused, nothing is approximated. -/
+theorem C15_complete (raw : Bytes) (cfg : SuiteConfig) (h : Spec.denote raw = some cfg) (hrep : representable raw) :
+    newRawSuite raw = .ok cfg := by
+  unfold newRawSuite
+  cases hl : registryLookup raw with
+  | none => simp only; exact parseRawSuite_complete raw cfg h hrep
+  | some c =>
+    -- a registered name: the registry entry is what the name says (C15_registry) and instantiates (C15_model_registry)
+    have hm := registryLookup_mem raw c hl
+    have h1 := List.all_eq_true.mp C15_registry (raw, c) hm
+    simp only [decide_eq_true_eq] at h1
+    rw [h] at h1
+    injection h1 with h1
+    have h2 := C15_instantiable (raw, c) hm
+    unfold newRawSuite at h2
+    rw [hl] at h2
+    simp only at h2 ⊢
+    rw [h1]; exact h2
+
+/-- on representable strings acceptance is *equivalent* to having a denotation -/
+theorem C15_iff (raw : Bytes) (hrep : representable raw) (cfg : SuiteConfig) :
+    newRawSuite raw = .ok cfg ↔ Spec.denote raw = some cfg :=
+  ⟨fun h => (C15_newRawSuite raw cfg h).1, fun h => C15_complete raw cfg h hrep⟩
+
 -- non-vacuity: an unregistered well-formed string is accepted by the parser and denotes what it says
 -- "OCRA-1:HOTP-SHA256-7:C-QN10-PSHA1-S064-T5M"
 example : newRawSuite [79, 67, 82, 65, 45, 49, 58, 72, 79, 84, 80, 45, 83, 72, 65, 50, 53, 54, 45, 55, 58, 67, 45, 81, 78, 49, 48, 45, 80, 83, 72, 65, 49, 45, 83, 48, 54, 52, 45, 84, 53, 77] =
@@ -92,6 +120,9 @@ example : newRawSuite [79, 67, 82, 65, 45, 49, 58, 72, 79, 84, 80, 45, 83, 72, 6
 example : Spec.denote [79, 67, 82, 65, 45, 49, 48, 58, 72, 79, 84, 80, 45, 83, 72, 65, 49, 45, 54, 58, 81, 78, 48, 56] = none := by decide
 example : Spec.denote [79, 67, 82, 65, 45, 49, 58, 72, 79, 84, 80, 45, 83, 72, 65, 49, 45, 54, 58, 81, 78, 48, 56, 45, 81, 78, 49, 48] = none := by decide
 example : Gen.registry.length = 45 := by decide
+-- the hypotheses of C15_complete are met: `Lemmas/SuiteComplete.lean` proves `representable exampleSuite` for the
+-- unregistered string above, and shows "QA08" and "T1" not representable
+
 
 end OtpVerif.Props.C15
 
@@ -100,4 +131,6 @@ end OtpVerif.Props.C15
 #print axioms OtpVerif.Props.C15.C15_model_registry
 #print axioms OtpVerif.Props.C15.C15_newRawSuite
 #print axioms OtpVerif.Props.C15.C15_rejects
+#print axioms OtpVerif.Props.C15.C15_complete
+#print axioms OtpVerif.Props.C15.C15_iff
 #print axioms OtpVerif.Props.C15.C15_instantiable
